@@ -16,9 +16,11 @@ Two devices run through ALL streams:
   with an int / float32 4x4 array where exact).  The mathematical value - hence the model request and the oracle's expectation - is the same.
 * EVERY ACCESS PATH OF THE REGISTRY — wherever a registry is asked through `transform`, the same key (same spelling, same
   form) is also handed to every other key-taking method, enumerated from `dir(TransformDict)`: `get`, `[]`, `in` (if defined),
-  `load_key` with their rules (registered matrix / None / KeyError / bool, after the same normalisation of the names; Lean
-  `dictGet` / `dictGetItem` / `dictContains`), and any method the harness does not know, tried generically with the key as only
-  argument on a deep copy: every spelling must behave like `TransformKey(member, member)`.
+  `load_key`, and any public method the harness does not know whose first parameter is a key BY ITS SIGNATURE (named `key` or
+  annotated with TransformKey), tried with the key as only argument on a deep copy.  Demanded ("accepts frame names or frame
+  enums interchangeably as keys"): every spelling is answered like `TransformKey(member, member)`, a registered direction is
+  found, and a matrix handed out for X-to-Y is the registered one (or the inverse of the registered Y-to-X).  Other unknown
+  methods (say `add(matrix)`) are listed as `undriven` in the histogram and never judged.
 
 Two further streams state that the objects answer from what they hold NOW:
 * `regseq` — OPERATION SEQUENCES on one registry: `reg[key] = matrix` (new key, overwrite, overwrite of / registration of
@@ -34,16 +36,18 @@ Two further streams state that the objects answer from what they hold NOW:
 Oracle (independent of the model): the property evaluated on the real results with plain numpy
 algebra on the 4x4 matrices written down from the case — inverse round trips return the probe,
 composites are the numpy product of the inputs / equal the step-by-step transformation / are labelled
-first.src -> last.dst, mismatched compositions raise ValueError, transforming a pose = matrix product,
-and the registry's answer equals identity / registered matrix / numpy inverse of the reverse entry /
-KeyError according to the rule, with the frame name normalised by the harness's own table.
+first.src -> last.dst, mismatched compositions are rejected (raise; the class is not stated), transforming a pose =
+matrix product, and the registry's answer equals identity / registered matrix / numpy inverse of the reverse entry /
+an exception according to the rule, with the frame name normalised by the harness's own table.  Not judged (the
+statement is silent): exception classes, the number of entries of a registry, which of two registrations of one key at
+construction counts, negative answers of get / [] / in, anything built on a name that is no frame, malformed calls.
 For a sequence the rule is evaluated, after every step, on the contents written down from the case (dict of the
 harness), and every answer must also equal the answer of a registry built on the spot from those contents; a registry
 left behind by deepcopy keeps answering from its own contents.  For the aliasing stream the oracle states consistency
-of the object with ITSELF: before the caller's change its matrix is the one written down from the case; afterwards,
-whatever 4x4 matrix it presents (kept its own copy, or follows the buffer), transform / inv / dot / the registry's
-inverse answer must be that matrix's product, inverse and composition, and the library must not have written into the
-caller's arrays.
+of the object with ITSELF: before the caller's change its matrix is the one written down from the case; afterwards the
+round trips (transform then inverse, the registry's there-and-back, inv() composed with the object) must still return the
+original, and every single result must be the product with one of the matrices the object can stand for (its own copy,
+the changed buffer, a mixture, the matrix it presents).  Whether the library wrote into the caller's arrays is recorded only.
 """
 from __future__ import annotations
 
@@ -75,7 +79,7 @@ RULE = (
     "numeric type variants: 40% of matrices / probes / arguments carry their numbers as int, numpy int64/int32/float32 (scalars in tuples "
     "and lists, dtype of arrays, from_matrix arrays) or int-float mixtures, integral translations with arbitrary rotations; access paths: "
     "every registry query key (registry stream, every probe of every sequence step, one key with a non-frame name per sequence) also goes "
-    "to get / [] / in / load_key and to every unknown key-taking method found by dir(TransformDict). "
+    "to get / [] / in / load_key and to every unknown method found by dir(TransformDict) whose first parameter is a key by signature. "
     "non-trivial = at least one matrix that is not the identity motion, or a registry query; distinct = distinct case JSON"
 )
 THEOREMS = [
@@ -119,11 +123,16 @@ ASSUMPTIONS = [
     "keys whose components are neither str nor FrameID (None, int) are not generated",
     "numeric type variants are applied only where every number is exactly representable in the type (integers for the int types, "
     "float32-exact dyadics for float32); complex, Decimal, Fraction, bool and string numbers are not generated",
-    "for a key with a name that is no frame the other access paths are only required not to answer positively (no matrix, not True); "
-    "that they raise ValueError like transform is compared model-vs-code, not judged by the oracle",
+    "a name that is no frame is outside the quantifier (all key spellings OF FRAMES): matrices, keys and queries with such a name "
+    "are generated (branch histogram) but neither judged nor compared",
+    "exception classes are evidence only: 'is rejected' / 'raises' = any exception; malformed calls of transform (no / too many / "
+    "unknown / contradictory arguments) are neither judged nor compared",
+    "a key handed to the constructor twice with different matrices (which one counts is not stated; today the later) is neither "
+    "judged nor compared until an assignment or deletion settles it; len(registry), get -> None / [] -> KeyError / in -> False for "
+    "a direction registered only the other way round are not demanded (a registry may keep inverses)",
     "reg[key] = m is generated only with a key naming m's own frames (any spelling), as the constructor registers it",
     "only numpy arrays handed to the constructor / from_matrix are changed in place (not the internals of a Quaternion object, "
-    "not the attributes of the transform); the attributes .position/.rotation of the transform itself are not compared afterwards",
+    "not the attributes of the transform); after the change only the oracle's self-consistency clauses apply (no comparison with the model)",
 ]
 
 SPELLINGS = ("member", "lower", "upper", "mixed")
@@ -381,8 +390,9 @@ def _rot_arg(qs, form, num="float"):
     return _num_array(m, num)  # mat4
 
 
-def _build(spec):
-    import numpy as np
+def _build_thunk(spec):
+    """the arguments are prepared here (harness code: an error propagates as an infrastructure error); the returned thunk
+    is nothing but the library call"""
     from perception_eval.common.transform import HomogeneousMatrix
 
     src = _frame_arg(spec["src"], spec["src_sp"])
@@ -390,9 +400,15 @@ def _build(spec):
     inp = spec["input"]
     num = spec.get("num", "float")
     if inp == "from_matrix":
-        return HomogeneousMatrix.from_matrix(_num_array(_spec_matrix(spec), num), src, dst)
+        arr = _num_array(_spec_matrix(spec), num)
+        return lambda: HomogeneousMatrix.from_matrix(arr, src, dst)
     pos = _seq_arg(spec["pos"], "tuple" if inp in ("tuple", "quatobj") else "list" if inp == "list" else "ndarray", num)
-    return HomogeneousMatrix(pos, _rot_arg(spec["q"], inp, num), src, dst)
+    rot = _rot_arg(spec["q"], inp, num)
+    return lambda: HomogeneousMatrix(pos, rot, src, dst)
+
+
+def _build(spec):
+    return _build_thunk(spec)()
 
 
 def _fname(f):
@@ -426,12 +442,16 @@ def _rot_canon(r):
 
 def _canon_result(r):
     import numpy as np
+    from pyquaternion import Quaternion
     from perception_eval.common.transform import HomogeneousMatrix
 
     if isinstance(r, HomogeneousMatrix):
         return _hm(r)
     if isinstance(r, tuple) and len(r) == 2 and not np.isscalar(r[0]):
-        return {"pos": [float(c) for c in r[0]], "rot": _rot_canon(r[1])}
+        d = {"pos": [float(c) for c in r[0]], "rot": _rot_canon(r[1])}
+        if isinstance(r[1], Quaternion):
+            d["qnorm"] = float(r[1].norm)     # an orientation RESULT is a unit quaternion (judged on the round trips only)
+        return d
     return {"pos": [float(c) for c in r]}
 
 
@@ -456,10 +476,14 @@ def _call_transform(obj, key, kind, pos, rot, mat, call):
 
 
 def _try(f):
+    """the library call `f` -> canonical result, or {"err": class name} when it raised.  The class name is EVIDENCE (branch
+    histogram): the property says "is rejected" / "raises", so oracle and comparison only distinguish raised from returned.
+    The canonicalisation is harness code and stays outside the `try`."""
     try:
-        return _canon_result(f())
+        r = f()
     except Exception as e:  # noqa
         return {"err": type(e).__name__}
+    return _canon_result(r)
 
 
 def _pose_matrix(pos, qs):
@@ -825,8 +849,9 @@ def _sequences_and_aliases(rng, frames, n):
 def _build_all(specs):
     mats = []
     for i, s in enumerate(specs):
+        th = _build_thunk(s)
         try:
-            mats.append(_build(s))
+            mats.append(th())
         except Exception as e:  # noqa
             return None, {"err": type(e).__name__, "at": i}
     return mats, None
@@ -865,8 +890,9 @@ def _answer(td, qd, mats):
     rot = _rot_arg(a["q"], a["rot_form"], num) if a["kind"] == "pose" else (1.0, 0.0, 0.0, 0.0)
     mat = None
     if a["kind"] == "mat":
+        th = _build_thunk(a)
         try:
-            mat = _build(a)
+            mat = th()
         except Exception as e:  # noqa
             return {"arg_err": type(e).__name__}
     elif a["kind"] == "posandmat":
@@ -881,11 +907,13 @@ def _answer(td, qd, mats):
 
 # ----------------------------------------------------------------------------- every access path of the registry
 
-# A registry is asked not only through `transform`: every public method that takes a key must read it the same way
-# (TransformKey / pair / list; member, lower-, upper-, mixed-case name).  The paths are ENUMERATED FROM THE CLASS, so a
-# newly added one is picked up: known lookups have a rule (below); known methods without a key argument and the
-# modifying ones that the operation sequences already drive are listed; anything else is tried generically with the key
-# as its only argument, on a deep copy, and must treat every spelling like the canonical TransformKey(member, member).
+# A registry is asked not only through `transform`: the statement says it "accepts frame names or frame enums
+# interchangeably as keys", so every public method that takes a KEY must read it the same way (TransformKey / pair / list;
+# member, lower-, upper-, mixed-case name).  The paths are ENUMERATED FROM THE CLASS: the known lookups, plus any other
+# public method whose FIRST PARAMETER IS A KEY BY ITS SIGNATURE (named `key`, or annotated with TransformKey /
+# TransformKeyType).  Such a method is tried with the key as its only argument on a deep copy and must treat every spelling
+# like the canonical TransformKey(member, member).  Any other unknown public method (e.g. a convenience `add(matrix)`) is
+# `undriven`: recorded in the histogram, never judged.
 LOOKUP_RULES = ("get", "__getitem__", "__contains__", "load_key")
 _NO_KEY_PATHS = {"keys", "items", "values", "__iter__", "__len__", "__repr__", "__str__", "__bool__", "copy", "__copy__", "__deepcopy__",
                  "__reduce__", "__reduce_ex__", "__getstate__", "__setstate__", "__eq__", "__ne__", "__hash__", "__init__",
@@ -894,22 +922,42 @@ _DRIVEN_ELSEWHERE = {"transform", "__setitem__", "__delitem__"}  # queries and t
 _PATHS = None
 
 
+def _takes_one_key(fn):
+    """is `fn` (a function found on the class) a method of exactly one required argument that is a key by signature?"""
+    import inspect
+
+    try:
+        ps = list(inspect.signature(fn).parameters.values())
+    except (TypeError, ValueError):
+        return False
+    if ps and ps[0].name in ("self", "cls"):
+        ps = ps[1:]
+    req = [q for q in ps if q.default is inspect.Parameter.empty
+           and q.kind in (inspect.Parameter.POSITIONAL_ONLY, inspect.Parameter.POSITIONAL_OR_KEYWORD)]
+    if len(req) != 1 or not ps or ps[0] is not req[0]:
+        return False
+    ann = ps[0].annotation
+    ann = "" if ann is inspect.Parameter.empty else (ann if isinstance(ann, str) else getattr(ann, "__name__", repr(ann)))
+    return ps[0].name == "key" or "TransformKey" in ann
+
+
 def _registry_paths():
-    """(lookups with a rule, unknown key-taking candidates) among the public callables of TransformDict"""
+    """(lookups with a rule, unknown key-taking methods, unknown methods that are not driven) among the public callables
+    of TransformDict"""
     global _PATHS
     if _PATHS is None:
         from perception_eval.common.transform import TransformDict
 
         base = set(dir(object))
-        known, generic = [], []
+        known, generic, undriven = [], [], []
         for n in dir(TransformDict):
             if n in base or n.startswith("_TransformDict__") or not callable(getattr(TransformDict, n, None)):
                 continue
             if n in LOOKUP_RULES:
                 known.append(n)
             elif n not in _NO_KEY_PATHS and n not in _DRIVEN_ELSEWHERE:
-                generic.append(n)
-        _PATHS = (known, generic)
+                (generic if _takes_one_key(getattr(TransformDict, n)) else undriven).append(n)
+        _PATHS = (known, generic, undriven)
     return _PATHS
 
 
@@ -945,30 +993,37 @@ def _look_call(reg, name, key):
 
 
 def _lookups(reg, qd):
-    """the answers of every lookup path to one key description: {path: canonical answer}"""
+    """the answers of every lookup path to one key description: {path: {"spelled": answer to the key as spelled,
+    "canonical": answer to TransformKey(member, member)}}; unknown key-taking methods run on deep copies"""
     import copy
 
-    known, generic = _registry_paths()
+    known, generic, _ = _registry_paths()
+    bad = _norm_name(qd["src"], qd["src_sp"]) is None or _norm_name(qd["dst"], qd["dst_sp"]) is None
+
+    def ask(r, name, canonical):
+        def run():
+            if canonical:
+                key = _mk_key(qd["src"], "member", qd["dst"], "member", "key")
+            else:
+                key = _mk_key(qd["src"], qd["src_sp"], qd["dst"], qd["dst_sp"], qd["form"])
+            return _look_call(r, name, key)
+        try:
+            res = run()
+        except Exception as e:  # noqa
+            return {"err": type(e).__name__}
+        return _canon_look(res)
+
     out = {}
     for name in known:
-        def run(name=name):
-            return _look_call(reg, name, _mk_key(qd["src"], qd["src_sp"], qd["dst"], qd["dst_sp"], qd["form"]))
-        try:
-            out[name] = _canon_look(run())
-        except Exception as e:  # noqa
-            out[name] = {"err": type(e).__name__}
-    for name in generic:  # unknown method: the spelled key on one deep copy, the canonical key on another
+        out[name] = {"spelled": ask(reg, name, False), "canonical": None if bad else ask(reg, name, True)}
+    for name in generic:  # unknown key-taking method: the spelled key on one deep copy, the canonical key on another
         res = []
         for canonical in (False, True):
+            if canonical and bad:
+                res.append(None)
+                continue
             r2 = copy.deepcopy(reg)
-            try:
-                if canonical:
-                    key = _mk_key(qd["src"], "member", qd["dst"], "member", "key")
-                else:
-                    key = _mk_key(qd["src"], qd["src_sp"], qd["dst"], qd["dst_sp"], qd["form"])
-                ans = _canon_look(getattr(r2, name)(key))
-            except Exception as e:  # noqa
-                ans = {"err": type(e).__name__}
+            ans = ask(r2, name, canonical)
             try:
                 after = sorted([_fname(k.src), _fname(k.dst)] for k in r2.keys())
             except Exception:  # noqa
@@ -978,38 +1033,54 @@ def _lookups(reg, qd):
     return out
 
 
-def _check_lookups(qd, look, table):
-    """every access path reads the key like `transform` does: the frame names are normalised, then the registered matrix
-    (or its absence) is reported the way the path reports it"""
+def _same_look(a, b):
+    """two answers of one access path are the same answer: both raised (any class), or equal values (matrices 1e-9)"""
+    if a is None or b is None:
+        return a is b
+    if "ans" in a and "ans" in b:
+        return a.get("keys_after") == b.get("keys_after") and _same_look(a["ans"], b["ans"])
+    if "err" in a or "err" in b:
+        return "err" in a and "err" in b
+    if "mat" in a or "mat" in b:
+        return "mat" in a and "mat" in b and _close_list(a["mat"], b["mat"]) and (a["src"], a["dst"]) == (b["src"], b["dst"])
+    return a == b
+
+
+def _check_lookups(qd, look, table, amb=()):
+    """"accepts frame names or frame enums interchangeably as keys": every access path answers the key as spelled exactly
+    as it answers TransformKey(member, member); and a matrix it hands out for X-to-Y is the registered X-to-Y (or, from a
+    registry that also keeps inverses, the inverse of the registered Y-to-X).  NOT demanded (the statement is silent):
+    `get` -> None / `[]` -> KeyError / `in` -> False for a direction that is only registered the other way round, the
+    number of entries, exception classes."""
+    import numpy as np
+
     s, t = _norm_name(qd["src"], qd["src_sp"]), _norm_name(qd["dst"], qd["dst_sp"])
+    if s is None or t is None:
+        return None       # a name that is no frame: outside "all key spellings"
+    if (s, t) in amb or (t, s) in amb:
+        return None       # registered twice at construction: which one counts is not stated
     where = f"key ({qd['src']}:{qd['src_sp']}, {qd['dst']}:{qd['dst_sp']}) given as {qd['form']}"
     for name, ans in look.items():
-        if name.startswith("?"):
-            if s is None or t is None:
-                continue
-            if ans["canonical"]["ans"].get("err") == "TypeError":
-                continue  # not a method of one key argument
-            if ans["spelled"] != ans["canonical"]:
-                return (f"{name[1:]}({where}) = {_short(ans['spelled'])} but with TransformKey(member, member) "
-                        f"{_short(ans['canonical'])}")
+        sp, ca = ans["spelled"], ans["canonical"]
+        if not _same_look(sp, ca):
+            return (f"{name.lstrip('?')}({where}) = {_short(sp)} but with TransformKey(member, member) {_short(ca)}")
+        if name.startswith("?") or "mat" not in sp:
             continue
-        if s is None or t is None:  # a name that is no frame: never a positive answer
-            if "mat" in ans or ans.get("bool") is True or "key" in ans:
-                return f"{name}({where}) answered {_short(ans)} for a name that is no frame"
+        if (s, t) in table:
+            M = table[(s, t)]
+        elif (t, s) in table:
+            M = np.linalg.inv(table[(t, s)])
+        else:
             continue
-        M = table.get((s, t))
-        if name == "load_key":
-            if ans.get("key") != [s, t]:
-                return f"load_key({where}) = {_short(ans)}, expected the key {s}->{t}"
-        elif name == "__contains__":
-            if ans.get("bool") is not (M is not None):
-                return f"{where} in registry = {_short(ans)}, but {s}->{t} is {'registered' if M is not None else 'not registered'}"
-        elif M is None:
-            want = {"none": True} if name == "get" else {"err": "KeyError"}
-            if ans != want:
-                return f"{name}({where}) = {_short(ans)}, but {s}->{t} is not registered: expected {want}"
-        elif "mat" not in ans or not _close_list(ans["mat"], M) or (ans["src"], ans["dst"]) != (s, t):
-            return f"{name}({where}) = {_short(ans)}, but {s}->{t} is registered with matrix {M.tolist()}"
+        if name in ("get", "__getitem__") and (not _close_list(sp["mat"], M) or (sp["src"], sp["dst"]) != (s, t)):
+            return f"{name}({where}) = {_short(sp)}, but {s}->{t} stands for the matrix {M.tolist()}"
+    # a registered direction is found by the lookups (through any spelling)
+    if (s, t) in table:
+        for name in ("get", "__getitem__"):
+            if name in look and "mat" not in look[name]["spelled"]:
+                return f"{name}({where}) = {_short(look[name]['spelled'])}, but {s}->{t} is registered"
+        if "__contains__" in look and look["__contains__"]["spelled"].get("bool") is not True:
+            return f"{where} in registry = {_short(look['__contains__']['spelled'])}, but {s}->{t} is registered"
     return None
 
 
@@ -1041,6 +1112,40 @@ def _probe_queries(case):
     return [dict(pq, arg=case["parg"]) for pq in case["probes"]]
 
 
+def _len(reg):
+    """number of entries the registry reports (evidence only: the statement does not say how many entries a registry
+    holds -- one that also stores inverses holds more)"""
+    try:
+        return len(reg)
+    except Exception:  # noqa
+        return None
+
+
+def _ambiguous(specs):
+    """keys handed to the constructor more than once with different matrices: which registration counts is not stated
+    by the property (today the later one), so queries about them (either direction) are neither judged nor compared"""
+    seen, amb = {}, set()
+    for sp in specs:
+        k = _spec_key(sp)
+        if k in seen and (seen[k]["pos"], seen[k]["q"]) != (sp["pos"], sp["q"]):
+            amb.add(k)
+        seen.setdefault(k, sp)
+    return amb
+
+
+def _seq_ambiguous(case):
+    """`_ambiguous` after construction and after every operation: an assignment or a deletion of the key settles it"""
+    amb = set(_ambiguous(case["mats"]))
+    steps = [set(amb)]
+    for op in case["ops"]:
+        if op["op"] == "set":
+            amb.discard(_spec_key(op["mat"]))
+        elif op["op"] == "del":
+            amb.discard((op["src"], op["dst"]))
+        steps.append(set(amb))
+    return steps
+
+
 def _run_regseq(case, mats):
     import copy
 
@@ -1061,7 +1166,7 @@ def _run_regseq(case, mats):
         if ref["cont"] != cont:
             fresh = TransformDict([_build(sp) for sp in cont.values()])
             ref["cont"], ref["answers"] = cont, [_answer(fresh, qd, mats) for qd in probes]
-        return {"res": res, "probes": [_answer(reg, qd, mats) for qd in probes], "fresh": ref["answers"], "len": len(reg),
+        return {"res": res, "probes": [_answer(reg, qd, mats) for qd in probes], "fresh": ref["answers"], "len": _len(reg),
                 "look": [_lookups(reg, qd) for qd in probes]}
 
     steps = [observe(td, contents[0], None)]
@@ -1225,7 +1330,7 @@ def run_impl(case):
         except Exception as e:  # noqa
             return {"err": type(e).__name__, "at": -1}
         answers = [_answer(td, qd, mats) for qd in case["queries"]]
-        return {"answers": answers, "len": len(td), "look": [_lookups(td, qd) for qd in case["queries"]]}
+        return {"answers": answers, "len": _len(td), "look": [_lookups(td, qd) for qd in case["queries"]]}
     if case["kind"] == "regseq":
         return _run_regseq(case, mats)
     raise ValueError(case["kind"])
@@ -1316,6 +1421,8 @@ def _cmp(impl, model, path=""):
             return f"{path}: impl {impl!r} vs model {model!r}"
         if ("err" in model) != ("err" in impl):
             return f"{path}: impl {_short(impl)} vs model {_short(model)}"
+        if "err" in model:
+            return None     # both raised: the property names no exception class ("is rejected", "raises")
         for k, v in model.items():
             if k == "id":
                 continue
@@ -1346,23 +1453,77 @@ def _short(x):
     return s if len(s) < 300 else s[:300] + "…"
 
 
+def _look_pair(impl_look, model_look):
+    """the access-path answers that are comparable: what the implementation answered to the key AS SPELLED against the
+    model's answer, only where the model's answer is positive (a registered matrix, the normalised key).  The model's
+    negative answers (`get` -> None, `[]` -> KeyError for a direction registered only the other way round) are one
+    admissible behaviour, not part of the statement."""
+    il, ml = {}, {}
+    for name, m in model_look.items():
+        if name in impl_look and ("mat" in m or "key" in m):
+            il[name], ml[name] = impl_look[name]["spelled"], m
+    return il, ml
+
+
+def _prune_obs(probes, amb, impl, model):
+    """one observation of a registry (answers to `probes`, access paths) restricted to the judged queries"""
+    keep = [i for i, qd in enumerate(probes) if _judged(qd, amb)]
+    i2, m2 = {}, {}
+    for key in ("answers", "probes"):
+        if key in model:
+            i2[key] = [impl[key][i] for i in keep]
+            m2[key] = [model[key][i] for i in keep]
+    if "look" in model:
+        pairs = [_look_pair(impl["look"][i], model["look"][i]) for i in keep]
+        i2["look"], m2["look"] = [a for a, _ in pairs], [b for _, b in pairs]
+    return i2, m2
+
+
 def compare(case, out, resps):
-    if case["kind"] == "alias":
-        # the model knows one matrix at a time: before the caller touches its arrays it is the matrix the
-        # transform was built from; afterwards the one the real object presents (kept / follows / mixture)
-        for phase, resp in zip(("before", "after"), resps):
-            if "mats" not in resp:
-                return f"{phase}: model rejected the matrix: {_short(resp)}"
-            m = dict(resp["mats"][0])
-            if phase == "after":  # .position / .rotation of the object itself are not results of transform/inv/dot
-                m["m"] = {k: v for k, v in m["m"].items() if k not in ("pos", "rot")}
-            d = _cmp(out[phase], m, phase)
-            if d:
-                return d
+    """real code vs Lean model on what the property observes, inside its quantifier.  Not compared: anything built on a
+    frame name that is no frame, malformed calls, keys registered twice at construction, exception classes (raised vs
+    returned only), the number of entries of a registry, negative answers of get / [] / in, and a transform after the
+    caller changed the arrays it was built from (the oracle states what must still hold there)."""
+    if out.get("unexpected"):
         return None
+    if case["kind"] == "alias":
+        resp = resps[0]
+        if "mats" not in resp:
+            return f"before: model rejected the matrix: {_short(resp)}"
+        return _cmp(out["before"], dict(resp["mats"][0]), "before")
+    specs = case["mats"]
+    if any(_norm_name(s_["src"], s_["src_sp"]) is None or _norm_name(s_["dst"], s_["dst_sp"]) is None for s_ in specs):
+        return "skip"
     r = dict(resps[0])
     r.pop("id", None)
-    return _cmp(out, r)
+    if case["kind"] == "chain":
+        return _cmp(out, r)
+    amb = _ambiguous(specs)
+    if "err" in out and "at" in out:
+        if amb:
+            return "skip"
+        return _cmp(out, r)
+    if case["kind"] == "registry":
+        return _cmp(*_prune_obs(case["queries"], amb, out, r))
+    # regseq
+    if "steps" not in r:
+        return _cmp(out, r)
+    ambs = _seq_ambiguous(case)
+    probes = _probe_queries(case)
+    for j, (io, mo) in enumerate(zip(out["steps"], r["steps"])):
+        i2, m2 = _prune_obs(probes, ambs[j], io, mo)
+        op = case["ops"][j - 1] if j else None
+        if op is not None and op["op"] == "query" and _judged(op, ambs[j]):
+            i2["res"], m2["res"] = io["res"], mo.get("res")   # (assignments / deletions: judged by the oracle only)
+        d = _cmp(i2, m2, f".steps[{j}]")
+        if d:
+            return d
+    ci = [i + 1 for i, op in enumerate(case["ops"]) if op["op"] == "copy"]
+    for j, (io, mo, i) in enumerate(zip(out["olds"], r.get("olds", []), ci)):
+        d = _cmp(*_prune_obs(probes, ambs[i], io, mo), f".olds[{j}]")
+        if d:
+            return d
+    return None
 
 
 # ----------------------------------------------------------------------------- oracle
@@ -1407,6 +1568,9 @@ def _check_info(tag, d, M, src, dst, probe_pose, G):
     for k, what in (("rt1", "inv().transform(transform(p, r))"), ("rt2", "transform(inv().transform(p, r))")):
         if not _pose_close(d[k], probe_pose):
             return f"{tag}: {what} = {d[k]}, original pose {probe_pose}"
+        # "returns the original position and orientation": the original orientation is a unit quaternion, so q or -q it is
+        if "qnorm" in d[k] and abs(d[k]["qnorm"] - 1.0) > 1e-9:
+            return f"{tag}: {what} returns a quaternion of norm {d[k]['qnorm']} (the original orientation is a unit quaternion)"
     for k, what in (("rt1_pos", "inv().transform(transform(p))"), ("rt2_pos", "transform(inv().transform(p))")):
         if not _pose_close(d[k], {"pos": probe_pose["pos"]}):
             return f"{tag}: {what} = {d[k]}, original position {probe_pose['pos']}"
@@ -1424,13 +1588,17 @@ def oracle(case, out):
     specs = case["mats"]
     names = [(_norm_name(s["src"], s["src_sp"]), _norm_name(s["dst"], s["dst_sp"])) for s in specs]
     bad = next((i for i, (a, b) in enumerate(names) if a is None or b is None), None)
-    if "err" in out and "answers" not in out and "mats" not in out:
-        # construction failed: legitimate only for an unknown frame name (not part of the property otherwise)
-        if bad is not None and out.get("at") == bad and out["err"] == "ValueError":
-            return None
-        return f"constructing the matrices failed: {out}"
+    if out.get("unexpected"):
+        return f"the real code raised {out.get('err')} outside the anticipated places: {_short(out)}"
     if bad is not None:
-        return f"matrix {bad} with an unknown frame name was accepted"
+        # a name that is no frame is outside the quantifier ("all key spellings" of frames): whether such a matrix is
+        # rejected (today: ValueError) or accepted is not stated, and nothing built on it is judged
+        return None
+    amb = _ambiguous(specs) if case["kind"] in ("registry", "regseq") else set()
+    if "err" in out and "answers" not in out and "mats" not in out and "steps" not in out:
+        if out.get("at") == -1 and amb:
+            return None     # the registry refused a key registered twice: not stated either way
+        return f"constructing the matrices failed: {out}"
     Ms = [_spec_matrix(s) for s in specs]
     if case["kind"] == "chain":
         pr = case["probe"]
@@ -1447,9 +1615,9 @@ def oracle(case, out):
             if i - 1 >= len(comps):
                 return f"composite {i} missing"
             c = comps[i - 1]
-            if names[i][0] != acc_dst:  # frames do not connect: must be rejected
-                if c.get("err") != "ValueError":
-                    return f"composing {names[i][0]}->{names[i][1]} after {acc_src}->{acc_dst} was not rejected with ValueError: {_short(c)}"
+            if names[i][0] != acc_dst:  # "composition with mismatched frames is rejected" = raises (any exception class)
+                if "err" not in c:
+                    return f"composing {names[i][0]}->{names[i][1]} after {acc_src}->{acc_dst} was not rejected: {_short(c)}"
                 return None
             if "err" in c:
                 return f"composing {names[i][0]}->{names[i][1]} after {acc_src}->{acc_dst} raised {c['err']}"
@@ -1469,29 +1637,40 @@ def oracle(case, out):
     answers = out["answers"]
     table = {}
     for k, M in zip(names, Ms):
-        table[k] = M  # later registrations overwrite
-    if out.get("len") != len(table):
-        return f"registry holds {out.get('len')} entries, {len(table)} distinct keys were registered"
+        table[k] = M  # (keys registered twice with different matrices are in `amb`: not judged)
     for qd, ans in zip(case["queries"], answers):
-        f = _check_query(qd, ans, table)
+        f = _check_query(qd, ans, table, amb)
         if f:
             return f
     for qd, look in zip(case["queries"], out.get("look", [])):
-        f = _check_lookups(qd, look, table)
+        f = _check_lookups(qd, look, table, amb)
         if f:
             return f"registered: {sorted(table)}: {f}"
     return None
 
 
-def _check_query(qd, ans, table):
+def _judged(qd, amb=()):
+    """is this registry query inside the property's quantifier?  Unknown frame names, malformed calls (no / too many /
+    unknown / contradictory arguments), a matrix argument with an unknown frame name and keys registered twice at
+    construction are not: neither judged by the oracle nor compared with the model"""
+    s, t = _norm_name(qd["src"], qd["src_sp"]), _norm_name(qd["dst"], qd["dst_sp"])
+    a = qd["arg"]
+    if s is None or t is None or a["kind"] in MALFORMED:
+        return False
+    if a["kind"] == "mat" and (_norm_name(a["src"], a["src_sp"]) is None or _norm_name(a["dst"], a["dst_sp"]) is None):
+        return False
+    return (s, t) not in amb and (t, s) not in amb
+
+
+def _check_query(qd, ans, table, amb=()):
     """the registry rule for one query, `table` = what is registered at the time: (src, dst) -> 4x4 numpy matrix"""
     import numpy as np
 
     s, t = _norm_name(qd["src"], qd["src_sp"]), _norm_name(qd["dst"], qd["dst_sp"])
     a = qd["arg"]
     where = f"transform(({qd['src']}:{qd['src_sp']}, {qd['dst']}:{qd['dst_sp']}), {a['kind']})"
-    if s is None or t is None or a["kind"] in MALFORMED or "arg_err" in ans:
-        return None  # unknown names / malformed calls: not constrained by the property
+    if not _judged(qd, amb) or "arg_err" in ans:
+        return None  # unknown names / malformed calls / ambiguous registrations: not constrained by the property
     if a["kind"] == "mat":
         ns, nd = _norm_name(a["src"], a["src_sp"]), _norm_name(a["dst"], a["dst_sp"])
         N = _spec_matrix(a)
@@ -1507,18 +1686,18 @@ def _check_query(qd, ans, table):
             T = table[(s, t)]
         elif (t, s) in table:
             T = np.linalg.inv(table[(t, s)])
-        else:
-            if ans.get("err") != "KeyError":
-                return f"{where}: neither direction registered, expected KeyError, got {_short(ans)}"
+        else:   # "raises when neither direction is registered" (any exception class)
+            if "err" not in ans:
+                return f"{where}: neither direction registered, expected an exception, got {_short(ans)}"
             return None
         if a["kind"] == "pos":
             want = {"pos": (T @ np.array(list(a["pos"]) + [1.0]))[:3].tolist()}
         elif a["kind"] == "pose":
             want = _pose_of_matrix(T @ _pose_matrix(a["pos"], a["q"]))
         else:
-            if ns != t:  # the argument does not start where the transform ends
-                if ans.get("err") != "ValueError":
-                    return f"{where}: matrix {ns}->{nd} does not connect to {s}->{t}, expected ValueError, got {_short(ans)}"
+            if ns != t:  # the argument does not start where the transform ends: "mismatched frames is rejected"
+                if "err" not in ans:
+                    return f"{where}: matrix {ns}->{nd} does not connect to {s}->{t}, expected a rejection, got {_short(ans)}"
                 return None
             want = {"mat": (N @ T).tolist(), "src": s, "dst": nd}
     if "err" in ans:
@@ -1549,24 +1728,23 @@ def _oracle_regseq(case, out):
     registered NOW (numpy algebra on the matrices written down from the case), and the way a registry
     built on the spot from the same contents answers"""
     contents = _seq_contents(case)
+    ambs = _seq_ambiguous(case)
     probes = _probe_queries(case)
     steps = out["steps"]
     if len(steps) != len(contents):
-        return f"{len(steps)} steps observed, {len(contents)} expected"
+        raise RuntimeError(f"c18: {len(steps)} steps observed, {len(contents)} expected")
 
-    def check_obs(obs, cont, when):
+    def check_obs(obs, cont, when, amb):
         table = {k: _spec_matrix(sp) for k, sp in cont.items()}
-        if obs.get("len") != len(table):
-            return f"{when}: registry holds {obs.get('len')} entries, {len(table)} keys are registered"
         for qd, look in zip(probes, obs.get("look", [])):
-            f = _check_lookups(qd, look, table)
+            f = _check_lookups(qd, look, table, amb)
             if f:
                 return f"{when} (registered now: {sorted(table)}): {f}"
         for qd, ans, fresh in zip(probes, obs["probes"], obs["fresh"]):
-            f = _check_query(qd, ans, table)
+            f = _check_query(qd, ans, table, amb)
             if f:
                 return f"{when} (registered now: {sorted(table)}): {f}"
-            if qd["arg"]["kind"] in MALFORMED or _norm_name(qd["src"], qd["src_sp"]) is None or _norm_name(qd["dst"], qd["dst_sp"]) is None:
+            if not _judged(qd, amb):
                 continue
             d = _cmp(ans, fresh)
             if d:
@@ -1586,31 +1764,35 @@ def _oracle_regseq(case, out):
             if op["op"] == "del" and res is not None and (op["src"], op["dst"]) in contents[i - 1]:
                 return f"{when}: deleting a registered key raised {res}"
             if op["op"] == "query":
-                f = _check_query(op, res, {k: _spec_matrix(sp) for k, sp in cont.items()})
+                f = _check_query(op, res, {k: _spec_matrix(sp) for k, sp in cont.items()}, ambs[i])
                 if f:
                     return f"{when}: {f}"
-        f = check_obs(obs, cont, when)
+        f = check_obs(obs, cont, when, ambs[i])
         if f:
             return f
     # registries left behind by deepcopy: unaffected by what happened to the copy
     ci = [i + 1 for i, op in enumerate(case["ops"]) if op["op"] == "copy"]
     if len(ci) != len(out["olds"]):
-        return f"{len(out['olds'])} registries left behind, {len(ci)} expected"
+        raise RuntimeError(f"c18: {len(out['olds'])} registries left behind, {len(ci)} expected")
     for j, (obs, i) in enumerate(zip(out["olds"], ci)):
-        f = check_obs(obs, contents[i], f"the original of deepcopy #{j}, asked after the copy went through {len(case['ops']) - i} more operations")
+        f = check_obs(obs, contents[i], f"the original of deepcopy #{j}, asked after the copy went through {len(case['ops']) - i} more operations", ambs[i])
         if f:
             return f
     return None
 
 
 def _oracle_alias(case, out):
-    """a transform agrees with ITSELF before and after the caller changes, in place, the arrays it was
-    built from: whatever 4x4 matrix it presents, transform / inv / dot are that matrix's product,
-    inverse and composition.  Before the change the matrix is the one written down from the case."""
+    """a transform built from the caller's numpy arrays.  BEFORE the caller touches them: the full property with the
+    matrix written down from the case.  AFTER the caller changed them in place the statement does not say which matrix the
+    object stands for (its own copy, the changed buffer, a mixture): what it does say still has to hold for the object as
+    it is -- transform followed by the inverse (and the registry's there-and-back) returns the original pose, inv() composed
+    with the object is the identity, labels are kept -- and every single result (transform, dot on either side, the
+    registry's answer) must be the product with ONE of the matrices the object can stand for.  Whether the library wrote
+    into the caller's arrays is recorded (`alias:inputs-written`), not judged: the statement is silent about it."""
     import numpy as np
 
-    if "before" not in out or "after" not in out:
-        return f"building a transform from numpy arrays failed: {_short(out)}"
+    if out.get("unexpected"):
+        return f"the real code raised {out.get('err')} outside the anticipated places: {_short(out)}"
     spec, pr = case["mat"], case["probe"]
     src, dst = _norm_name(spec["src"], spec["src_sp"]), _norm_name(spec["dst"], spec["dst_sp"])
     zf, wf = case["post"]["dst"], case["pre"]["src"]
@@ -1618,37 +1800,51 @@ def _oracle_alias(case, out):
     G = _pose_matrix(pr["pos"], pr["q"])
     probe_pose = _pose_of_matrix(G)
     mut = case["mut"]
+    eye = np.eye(4)
     for phase in ("before", "after"):
         d = out[phase]
         tag = "A" if phase == "before" else f"A (after the caller changed its {mut['what']} array(s) in place, {mut['how']})"
         if phase == "before":
-            M = _spec_matrix(spec)
+            cands = [_spec_matrix(spec)]
+            f = _check_info(tag, d, cands[0], src, dst, probe_pose, G)
+            if f:
+                return f
         else:
+            fol = _alias_follow_spec(case)
+            cands = [_spec_matrix(spec), _spec_matrix(fol), _spec_matrix(dict(spec, pos=fol["pos"])), _spec_matrix(dict(spec, q=fol["q"]))]
             M = np.array(d["m"]["mat"], dtype=float)
-            if M.shape != (4, 4):
-                return f"{tag}: .matrix is not 4x4"
-        f = _check_info(tag, d, M, src, dst, probe_pose, G)
-        if f:
-            return f
-        eye = np.eye(4)
-        for k, want, ws, wd, what in (
-            ("post", MB @ M, src, zf, "B.dot(A)"), ("post_tf", MB @ M, src, zf, "A.transform(B)"),
-            ("pre", M @ MC, wf, dst, "A.dot(C)"), ("pre_tf", M @ MC, wf, dst, "C.transform(matrix=A)"),
-            ("inv_dot", eye, src, src, "A.inv().dot(A)"), ("dot_inv", eye, dst, dst, "A.dot(A.inv())"),
+            if M.shape == (4, 4):
+                cands.append(M)
+            if "inv_err" in d:
+                return f"{tag}.inv() raised {d['inv_err']}"
+            if (d["m"]["src"], d["m"]["dst"]) != (src, dst) or (d["inv"]["src"], d["inv"]["dst"]) != (dst, src):
+                return f"{tag}: labelled {d['m']['src']}->{d['m']['dst']}, inverse {d['inv']['src']}->{d['inv']['dst']}; expected {src}->{dst}"
+            for k, what in (("rt1", "inv().transform(transform(p, r))"), ("rt2", "transform(inv().transform(p, r))")):
+                if not _pose_close(d[k], probe_pose):
+                    return f"{tag}: {what} = {d[k]}, original pose {probe_pose}"
+            for k, what in (("rt1_pos", "inv().transform(transform(p))"), ("rt2_pos", "transform(inv().transform(p))")):
+                if not _pose_close(d[k], {"pos": probe_pose["pos"]}):
+                    return f"{tag}: {what} = {d[k]}, original position {probe_pose['pos']}"
+            if not any(_pose_close(d["tf_pose"], _pose_of_matrix(c @ G)) for c in cands):
+                return f"{tag}.transform(p, r) = {d['tf_pose']} is the matrix product with none of the matrices the object can stand for"
+            if not any(_pose_close(d["tf_pos"], {"pos": _pose_of_matrix(c @ G)["pos"]}) for c in cands):
+                return f"{tag}.transform(p) = {d['tf_pos']} is the matrix product with none of the matrices the object can stand for"
+        for k, mk, ws, wd, what in (
+            ("post", lambda c: MB @ c, src, zf, "B.dot(A)"), ("post_tf", lambda c: MB @ c, src, zf, "A.transform(B)"),
+            ("pre", lambda c: c @ MC, wf, dst, "A.dot(C)"), ("pre_tf", lambda c: c @ MC, wf, dst, "C.transform(matrix=A)"),
+            ("inv_dot", lambda c: eye, src, src, "A.inv().dot(A)"), ("dot_inv", lambda c: eye, dst, dst, "A.dot(A.inv())"),
         ):
             c = d[k]
             if "err" in c:
                 return f"{tag}: {what} raised {c['err']}"
             if "mat" not in c or (c["src"], c["dst"]) != (ws, wd):
                 return f"{tag}: {what} is labelled {c.get('src')}->{c.get('dst')}, expected {ws}->{wd}"
-            if not _close_list(c["mat"], want):
-                return f"{tag}: {what}.matrix = {c['mat']} but the matrix product of A.matrix with the other matrix is {want.tolist()}"
-        if not _pose_close(d["reg_fwd"], _pose_of_matrix(M @ G)):
-            return f"{tag}: TransformDict(A).transform((src, dst), p, r) = {d['reg_fwd']}, A.matrix gives {_pose_of_matrix(M @ G)}"
+            if not any(_close_list(c["mat"], mk(cand)) for cand in cands):
+                return f"{tag}: {what}.matrix = {c['mat']} but the matrix product of A with the other matrix is {mk(cands[-1]).tolist()}"
+        if not any(_pose_close(d["reg_fwd"], _pose_of_matrix(c @ G)) for c in cands):
+            return f"{tag}: TransformDict(A).transform((src, dst), p, r) = {d['reg_fwd']}, A gives {_pose_of_matrix(cands[-1] @ G)}"
         if not _pose_close(d["reg_rt"], probe_pose):
             return f"{tag}: registry src->dst then dst->src (inverse of the registered A) = {d['reg_rt']}, original pose {probe_pose}"
-    if not out.get("inputs_intact"):
-        return "the library wrote into the caller's arrays"
     return None
 
 
@@ -1756,6 +1952,8 @@ def branches(case, out):
         return _branches_alias(case, out)
     if k == "regseq" and "steps" in out:
         return _branches_regseq(case, out)
+    if out.get("unexpected"):
+        return ["unexpected-exception", "trivial"]
     if "err" in out and "answers" not in out and "mats" not in out:
         return [f"{k}:construct-err:{out['err']}"]
     for s in case["mats"]:
@@ -1800,12 +1998,19 @@ def branches(case, out):
         br.append(f"query:{rule}:{qd['arg']['kind']}:{res}")
         if "pos" in qd["arg"] and qd["arg"]["kind"] != "mat":
             br.append(f"num:query-arg:{_num_applied(qd['arg'])}")
-        for name, ans in looks[qi].items():
+        for name, both in looks[qi].items():
+            ans = both["spelled"]
+            ans = ans.get("ans", ans) if isinstance(ans, dict) else {}
             br.append(f"path:{name}:{rule}:" + ("err:" + ans["err"] if "err" in ans else "matrix" if "mat" in ans else "none" if "none" in ans
                                                else "key" if "key" in ans else str(ans.get("bool", "generic"))))
         br.append(f"key-form:{qd['form']}")
         br.append(f"key-spelling:{qd['src_sp']}/{qd['dst_sp']}")
         br.append(f"call:{qd['call']}")
+    br += [f"path:?{n}:undriven(no-key-parameter)" for n in _registry_paths()[2]]
+    if out.get("len") is not None and out["len"] != len(set(keys)):
+        br.append("registry:len-differs-from-distinct-keys")
+    if _ambiguous(case["mats"]):
+        br.append("registry:key-registered-twice(not-judged)")
     if not case["queries"]:
         br.append("trivial")
     return br
